@@ -83,9 +83,23 @@ type provider struct {
 	internalHashSeed   uint32         // ...in which case, this too is shared.
 	receiveBufferSize  int
 	sendBufferSize     int
-	dispatchStart      uint16
-	dispatchEnd        uint16
-	dispatchRedirect   uint16
+	dispatch           *dispatchPorts // Shared with the internal link.
+}
+
+// dispatchPorts holds the range of auto-dispatched ports and the port that everything else is
+// redirected to. It is shared between the provider and its internal link, so that the range takes
+// effect whenever it is configured: before or after the internal link is created.
+type dispatchPorts struct {
+	v atomic.Uint64
+}
+
+func (d *dispatchPorts) set(start, end, redirect uint16) {
+	d.v.Store(uint64(start)<<32 | uint64(end)<<16 | uint64(redirect))
+}
+
+func (d *dispatchPorts) get() (start, end, redirect uint16) {
+	v := d.v.Load()
+	return uint16(v >> 32), uint16(v >> 16), uint16(v)
 }
 
 type udpLink interface {
@@ -112,6 +126,7 @@ func newProvider(batchSize int, receiveBufferSize int, sendBufferSize int) route
 		svc:               router.NewServices[netip.AddrPort](),
 		receiveBufferSize: receiveBufferSize,
 		sendBufferSize:    sendBufferSize,
+		dispatch:          &dispatchPorts{},
 	}
 }
 
@@ -134,9 +149,7 @@ func (u *provider) Headroom() int {
 }
 
 func (u *provider) SetDispatchPorts(start, end, redirect uint16) {
-	u.dispatchStart = start
-	u.dispatchEnd = end
-	u.dispatchRedirect = redirect
+	u.dispatch.set(start, end, redirect)
 }
 
 // AddSvc adds the address for the given service.
@@ -779,11 +792,9 @@ type internalLink struct {
 	procDone         chan struct{}
 	metrics          *router.InterfaceMetrics
 	pool             router.PacketPool
-	svc              *router.Services[netip.AddrPort]
-	seed             uint32
-	dispatchStart    uint16
-	dispatchEnd      uint16
-	dispatchRedirect uint16
+	svc      *router.Services[netip.AddrPort]
+	seed     uint32
+	dispatch *dispatchPorts // The provider's; see provider.SetDispatchPorts.
 }
 
 // NewInternalLink returns a internal link over the UdpIpUnderlay.
@@ -813,13 +824,11 @@ func (u *provider) NewInternalLink(
 	u.internalHashSeed = makeHashSeed()
 	queue := make(chan *router.Packet, qSize)
 	il := &internalLink{
-		egressQ:          queue,
-		metrics:          metrics,
-		svc:              u.svc,
-		seed:             u.internalHashSeed,
-		dispatchStart:    u.dispatchStart,
-		dispatchEnd:      u.dispatchEnd,
-		dispatchRedirect: u.dispatchRedirect,
+		egressQ:  queue,
+		metrics:  metrics,
+		svc:      u.svc,
+		seed:     u.internalHashSeed,
+		dispatch: u.dispatch,
 	}
 	c := &udpConnection{
 		conn: conn,
@@ -977,12 +986,13 @@ func (l *internalLink) Resolve(p *router.Packet, dst addr.Host, port uint16) err
 		if dstAddr.IsUnspecified() {
 			return router.ErrUnsupportedUnspecifiedAddress
 		}
+		// If the SCION port is outside the configured port range we send to the fixed port.
+		start, end, redirect := l.dispatch.get()
+		if port < start || port > end {
+			port = redirect
+		}
 	default:
 		panic(fmt.Sprintf("unexpected address type returned from DstAddr: %s", dst.Type()))
-	}
-	// if port is outside the configured port range we send to the fixed port.
-	if port < l.dispatchStart && port > l.dispatchEnd {
-		port = l.dispatchRedirect
 	}
 
 	// Packets that get here must have come from an external or a sibling link; neither of which
